@@ -1,7 +1,8 @@
 // C21: equality, hashing and diffing agree on the IR.
 //   apiprobe_eqhash FILE1 FILE2   (both loaded into ONE environment)
 // For every pair of same-named functions / variables across the two corpora, every pair of
-// same-named types across the corpora and every pair of types inside corpus 1:
+// same-named types across the corpora, every pair of differently named array / pointer / qualified / enum / typedef types
+// across the corpora, and every pair of types inside corpus 1:
 //   a == b  <=>  b == a ;   a == b  =>  hash(a) == hash(b) ;   diff(a,b).has_changes()  <=>  !(a == b)
 #include "probe_util.h"
 #include "abg-dwarf-reader.h"
@@ -99,6 +100,13 @@ int main(int argc, char** argv)
     for (size_t j = 0; j < t2.size(); ++j)
       if (get_pretty_representation(t1[i], true) == get_pretty_representation(t2[j], true))
 	laws(t1[i], t2[j], "type", get_pretty_representation(t1[i], true), get_pretty_representation(t2[j], true), true, ctxt);
+      else if ((is_array_type(t1[i]) && is_array_type(t2[j]))
+	       || (is_pointer_type(t1[i]) && is_pointer_type(t2[j]))
+	       || (is_qualified_type(t1[i]) && is_qualified_type(t2[j]))
+	       || (is_enum_type(t1[i]) && is_enum_type(t2[j]))
+	       || (is_typedef(t1[i]) && is_typedef(t2[j])))
+	// differently named types of one kind: the diff node of that kind must agree with equality as well
+	laws(t1[i], t2[j], "type-pair-of-one-kind", get_pretty_representation(t1[i], true), get_pretty_representation(t2[j], true), true, ctxt);
   }
   rep.print();
   return 0;
